@@ -5,6 +5,7 @@ import (
 	"errors"
 	"math/rand"
 	"os"
+	"runtime"
 	"sync/atomic"
 	"testing"
 	"time"
@@ -96,7 +97,9 @@ type batchStep struct {
 	A   string // item end srcerr next cancel adv close hold unhold
 	V   int
 	Ctx int
-	D   int // milliseconds
+	D   int  // milliseconds
+	NoQ bool // no quiescence point after this step: the next step races with what this one set in motion
+	Y   int  // ... after the driver has given up the processor this many times (the library's goroutines get going)
 }
 
 func genBatch(rng *rand.Rand, maxwait int, withHold bool) []batchStep {
@@ -244,7 +247,12 @@ func runBatch(t *testing.T, size, maxwait int, withFunc bool, steps []batchStep)
 		}
 		for _, st := range steps {
 			do(st)
-			r.Quiesce()
+			if !st.NoQ {
+				r.Quiesce()
+			}
+			for y := 0; y < st.Y; y++ {
+				runtime.Gosched()
+			}
 		}
 		// epilogue: release the callback, give up pending waits, close
 		do(batchStep{A: "unhold"})
@@ -284,6 +292,13 @@ func directedBatch() []struct {
 			{A: "adv", D: 6}, {A: "adv", D: 5}, {A: "item", V: 3}, {A: "adv", D: 9}, {A: "next"}, {A: "adv", D: 1}, {A: "adv", D: 20}}},
 		{2, 50, true, []batchStep{{A: "item", V: 1}, {A: "next"}, {A: "adv", D: 50}, {A: "item", V: 2}, {A: "adv", D: 49}, {A: "next"},
 			{A: "adv", D: 1}, {A: "adv", D: 60}}},
+		// a waiting consumer's context is cancelled right when a batch is being handed to it (no quiescence point in
+		// between; the driver yields a few times so that the hand-over is under way): the batch must not get lost
+		{1, 10, false, []batchStep{{A: "next", Ctx: 1}, {A: "item", V: 1, NoQ: true, Y: 2}, {A: "cancel", Ctx: 1}, {A: "next"}, {A: "item", V: 2}, {A: "next"}}},
+		{1, 10, false, []batchStep{{A: "next", Ctx: 1}, {A: "item", V: 1, NoQ: true, Y: 4}, {A: "cancel", Ctx: 1}, {A: "next"}, {A: "item", V: 2}, {A: "next"}}},
+		{1, 10, true, []batchStep{{A: "next", Ctx: 1}, {A: "item", V: 1, NoQ: true, Y: 7}, {A: "cancel", Ctx: 1}, {A: "next"}, {A: "item", V: 2}, {A: "next"}}},
+		{2, 10, false, []batchStep{{A: "item", V: 1}, {A: "next", Ctx: 1}, {A: "item", V: 2, NoQ: true, Y: 3}, {A: "cancel", Ctx: 1}, {A: "next"}, {A: "next"}}},
+		{2, 10, false, []batchStep{{A: "item", V: 1}, {A: "next", Ctx: 1}, {A: "item", V: 2, NoQ: true, Y: 6}, {A: "cancel", Ctx: 1}, {A: "next"}, {A: "next"}}},
 		// F8: the producer is ahead of the consumer when Close is called
 		{2, 10, false, []batchStep{{A: "item", V: 1}, {A: "item", V: 2}, {A: "item", V: 3}, {A: "item", V: 4}, {A: "item", V: 5}, {A: "close"}}},
 		{1, 10, false, []batchStep{{A: "item", V: 1}, {A: "item", V: 2}, {A: "next"}, {A: "item", V: 3}, {A: "item", V: 4}, {A: "close"}}},
